@@ -110,6 +110,10 @@ def blk_paging(rng):
         return [0x3E, v & 0x1F, 0xD3, 0xFD]                                # OUT (FD),A with A on the high half: decoded when A < 0x80
     return [0x01, 0xFD, 0xFF, 0x3E, rng.choice([0, 7, 8, 13, 15, 16, 200]), 0xED, 0x79, 0x06, 0xBF, 0x3E, rng.randrange(256), 0xED, 0x79]
 
+def blk_ay(rng):
+    reg = rng.choice([15, 15, 16, 14, 0, 7, 13, 31, 255, rng.randrange(16)])
+    return [0x01, 0xFD, 0xFF, 0x3E, reg, 0xED, 0x79, 0x06, 0xBF, 0x3E, rng.randrange(1, 256), 0xED, 0x79]
+
 def blk_selfmod(rng, slots):
     if not slots:
         return [0x00]
@@ -143,9 +147,9 @@ def main_program(rng, org, is128):
         pro += [0xED, 0x5E if RF[0] else rng.choice([0x56, 0x5E, 0x5E, 0x46])]
     loop_at = org + len(pro)
     makers = [blk_in] * 5 + [blk_halt] * 3 + [blk_eidi] * 3 + [blk_prefix] * 4 + [blk_ldair] * 3 + [blk_arith] * 4 + [blk_mem] * 3 + [blk_bit] * 2 + \
-             [blk_loop] * 2 + [blk_delay] * 2 + [blk_ldir] * 2 + [blk_border] * 2 + [blk_im]
+             [blk_loop] * 2 + [blk_delay] * 2 + [blk_ldir] * 2 + [blk_border] * 2 + [blk_im] + [blk_ldair] * 2 + [blk_ay]
     if is128:
-        makers += [blk_paging] * 5
+        makers += [blk_paging] * 5 + [blk_ay] * 3
     body = []
     slots = []
     sub_calls = []
@@ -181,7 +185,7 @@ def soup_program(rng, org):
         k = rng.random()
         if k < 0.22:
             items.append([0xFB])
-        elif k < 0.32:
+        elif k < 0.36:
             items.append([0xED, rng.choice([0x5F, 0x5F, 0x57])])
         elif k < 0.47:
             items.append(blk_prefix(rng))
@@ -202,7 +206,7 @@ def soup_program(rng, org):
         elif k < 0.96:
             items.append([0x21] + w(DATA + 0x40) + [0x01, 0xFE, 0x03, 0xED, 0xA2])
         else:
-            items.append(blk_mem(rng))
+            items.append(blk_mem(rng) if rng.random() < 0.5 else blk_ay(rng))
     code = [b for it in items for b in it]
     return code + [0xFB] * (rng.random() < 0.7) + [0xC3] + w(org)
 
@@ -322,7 +326,7 @@ def gen_case(rng, allow_real=True, ref_friendly=False):
     jitter = 0 if cls == 'real' or rng.random() < 0.5 else rng.randint(1, max(1, flen))
     st['tstates'] = rng.randrange(flen) if rng.random() < 0.7 else rng.randrange(frame)
     meta = {'kind': kind, 'is128': is128, 'org': org, 'code_len': len(code), 'flen_class': cls, 'flen': flen, 'jitter': jitter, 'frames': nf,
-            'inputs': rng.choice(['const', 'const', 'hash', 'hash', 'counter', 'keys']), 'in_seed': rng.randrange(1 << 30)}
+            'inputs': rng.choice(['const', 'const', 'const', 'hash', 'hash', 'counter', 'keys']), 'in_seed': rng.randrange(1 << 30)}
     return st, meta
 
 def input_fn(meta):
